@@ -30,6 +30,15 @@ Theorem encode_img_xml_indent : forall pf o, opts03 o -> forall m, root_ok o m =
 Proof. exact encode_img_xml_indent. Qed.
 Print Assumptions encode_img_xml_indent.
 
+(* an explicit root tag (Map.Xml(tag), Map.XmlIndent(prefix, indent, tag)): the whole map under the tag *)
+Theorem encode_img_xml_tag : forall pf o, opts03 o -> forall m rt, name_okb rt = true -> dom03 o (VMap m) = true ->
+  exists its, map_xml_items o m (Some rt) = Ok its /\ map_xml_indent_items o m (Some rt) = Ok its /\
+    wf_items its /\ single_root its /\
+    forall ws, ws_ok o ws ->
+      xml_decode pf nskip o false (toks_of_items (insert_ws ws its)) TermEOF = Ok (VMap [(rt, img o (VMap m))]).
+Proof. exact encode_img_xml_tag. Qed.
+Print Assumptions encode_img_xml_tag.
+
 Theorem encode_img_any : forall pf o, opts03 o -> forall v rt et, any_ok o v rt et = true ->
   exists its, any_xml_items o v rt et = Ok its /\
     wf_items its /\ single_root its /\
